@@ -3,8 +3,8 @@
 of (seed, unit key, layout, position), so a unit can be re-generated alone for attribution."""
 import random
 
-from checks.c15_lang import (FuncDef, StructDef, V, L, GI, S, P, ZAHL, KOMMA, TEXT, CHAR, BOOL, BYTE, subst, unify, tvars,
-                             is_concrete, TypeErrorInModel, contains_nested_list)
+from checks.c15_lang import (FuncDef, StructDef, V, L, GI, S, ZAHL, KOMMA, TEXT, CHAR, BOOL, BYTE, subst, unify, tvars,
+                             TypeErrorInModel, contains_nested_list)
 from checks.c15_prog import Program, Module
 
 LAYOUTS = ['one', 'two', 'three', 'hidden']
